@@ -191,6 +191,10 @@ def check(repo, rep, tier):
     rep.rule('R17.2', 'effects of apply_category_filters: one store, right row, ids by position, validated first, inputs returned')
     rep.rule('R17.3', 'shipped data well formed, targets unique, dictionary within inventory')
     r_polarity(repo, rep)
+    # the inventory and the dictionary meet as parsed categories: a category string must denote the same category
+    # however it is spaced (targets.en spells the comma category ', ')
+    from .c05 import r_delimiters
+    r_delimiters(repo.module('depccg/cat.py'), rep, 'R17.3')
     n = r_data(repo, rep)
     rep.floor('category strings checked', n, 24000)
     r_loading(repo, rep)
